@@ -9,9 +9,15 @@ ROOT=/var/tmp/verif-build
 mkdir -p $ROOT
 H=$( (cd $REPO && cat $(find src include app -type f | LC_ALL=C sort) CMakeLists.txt; echo $FLAV) | sha1sum | cut -c1-16)
 D=$ROOT/$FLAV-$H
-if [ -f $D/ok ]; then touch $D/ok; echo $D; exit 0; fi
-# drop stale builds of this flavour (keep disk small)
-find $ROOT -maxdepth 1 -name "$FLAV-*" -mmin +30 -exec rm -rf {} + 2>/dev/null
+if [ -f $D/ok ]; then touch $D/ok $D; echo $D; exit 0; fi
+# drop builds of this flavour that nobody has asked for in the last 6 hours (a long run may still be using a younger one)
+for old in $ROOT/$FLAV-*; do
+  [ -d "$old" ] || continue
+  if [ -z "$(find "$old" -maxdepth 1 -name ok -mmin -360 2>/dev/null)" ] && [ -z "$(find "$old" -maxdepth 0 -mmin -60 2>/dev/null)" ]; then rm -rf "$old"; fi
+done
+# build in a private directory and move it into place: two runs asking for the same tree do not disturb each other
+FINAL=$D
+D=$ROOT/.tmp-$FLAV-$H-$$
 rm -rf $D; mkdir -p $D
 case $FLAV in
   plain) CXX=g++;      FLAGS="-std=c++11 -O1 -g0";;
@@ -25,4 +31,5 @@ if [ $? -ne 0 ]; then echo "BUILD FAILED: $D/build.log" >&2; exit 1; fi
 ( cd $D && ar rcs libpatch.a $(ls *.o | grep -v '^main.o$') && $CXX $FLAGS main.o libpatch.a -o sb_patch ) >> $D/build.log 2>&1
 if [ $? -ne 0 ]; then echo "BUILD FAILED: $D/build.log" >&2; exit 1; fi
 touch $D/ok
-echo $D
+if [ -f $FINAL/ok ]; then rm -rf $D; else rm -rf $FINAL; mv $D $FINAL 2>/dev/null || rm -rf $D; fi
+echo $FINAL
